@@ -148,7 +148,7 @@ func Run(c *hx.Ctx) {
 			for d := 1; d < 256; d++ {
 				m := append([]byte{}, v.raw...)
 				m[i] ^= byte(d)
-				emit := c.Intn(c.N(260, 60)) == 0
+				emit := c.Intn(c.N(400, 60)) == 0
 				res := r.eval(&input{Kind: "deser", Label: "mut1:" + v.label, Buf: hx.Hex(m)}, emit)
 				if res.accepted {
 					c.Count("mut1:accepted")
@@ -172,7 +172,7 @@ func Run(c *hx.Ctx) {
 				}
 				c.Count(fmt.Sprintf("nonminimal-varint:form-%x", form))
 				res := r.eval(&input{Kind: "deser", Label: fmt.Sprintf("nonminimal:%s:varint#%d:%x", v.label, k, form), Buf: hx.Hex(b)},
-					len(b) < 330 && (i < 14 || i >= nOnt && i < nOnt+2 || c.Intn(4) == 0))
+					len(b) < c.N(200, 1400) && (i < 14 || i >= nOnt && i < nOnt+2 || c.Intn(4) == 0))
 				if res.accepted {
 					c.Count("nonminimal-varint:ACCEPTED")
 				}
@@ -189,7 +189,7 @@ func Run(c *hx.Ctx) {
 			if i >= 14 && i < nOnt && n%7 != 0 {
 				continue
 			}
-			r.deser("truncated:"+v.label, v.raw[:n], 0, (i < 3 || i == nOnt) && n%2 == 0 || c.Intn(30) == 0)
+			r.deser("truncated:"+v.label, v.raw[:n], 0, (i < 3 || i == nOnt) && n%c.N(3, 1) == 0 || c.Intn(c.N(45, 8)) == 0)
 			c.Count("truncation")
 		}
 	}
